@@ -38,9 +38,8 @@ func zzPowerBound() uint64 {
 }
 
 func zzNumVals() int {
-	if vrt.Thorough() {
-		return 4
-	}
+	// three validators in both tiers (four exceed the path budget in the thorough tier, where any of them may be
+	// unbonded, vote for the next nonce and any record may already be accepted)
 	return 3
 }
 
